@@ -88,6 +88,43 @@ CLAIMS = {
             "ours; refcount 0 => not ours) is preserved by the extracted tables, every counter/table access happens while self.lock is "
             "held, the lock object is never replaced, and the singleton's state is initialised once under a creation lock.",
             "lockset + who-may-write rules + inductive invariant over transition tables extracted by abstract interpretation"),
+    "C13": ("Structural clauses only (equivalence with a plain list over operation sequences is not claimed). Own methods plus the "
+            "inherited MutableSequence mixins parsed from the interpreter's _collections_abc.py: who-may-write the two stores and paired "
+            "list/index updates on every normal path; no failure point after the first store write in single-element operations "
+            "(__setitem__/__delitem__/insert/append/pop/remove); in-place slot assignment for replacement; _validate_item table; duplicate "
+            "rejection before writing; reverse overridden; key function forwarded by every type(self)(...) construction; key views read "
+            "only the key index.",
+            "paired-update / write-then-raise analysis by abstract interpretation over own + inherited mixin bodies, who-may-write AST rules"),
+    "C14": ("Structural clauses only (operation sequences against a dict model are not claimed): exhaustive decision table of add() "
+            "(validate first; ValueError iff enforce, key present and items differ, with nothing written; otherwise exactly one store); "
+            "writers of the key index; sibling agreement of __contains__ and discard over all 16 assignments of {argument is a present key, "
+            "key(argument) present, enforce, equal} against the statement's oracle; key lookup before item lookup; _from_iterable "
+            "overridden and forwarding key function and enforce flag; inherited algebra mixins use only the key-resolving primitives.",
+            "exhaustive decision-table extraction + sibling cross-check by abstract interpretation"),
+    "C15": ("check_type is a structural recursion over a finite set of annotation shapes: its body is partially evaluated once per shape "
+            "(15 shapes: Any, TypeVar, float, class, Union, X|Y, Literal, List/list/Set, Dict, Tuple[A,...], Tuple[A0,A1], Type, other "
+            "alias) with recursive calls summarised as atoms, and the residual decision structure of every path is compared with the "
+            "shape's oracle; bounded(): validator verdict for every ordering combination of up to two bounds incl. zero (falsy) bounds; "
+            "__instancecheck__ / validated() wiring. isinstance/== of user values are trusted.",
+            "partial evaluation per annotation shape (abstract interpretation) vs. structural oracle; exhaustive ordering table"),
+    "C16": ("Who may write to the decorated class, and under which guard: exhaustive decision table of register_method (write iff name "
+            "not in the class's own __dict__ or __spec_class prefix); every class-state write of the package is an enumerated site with its "
+            "guard; registry contents and naming (4 scalar / 4 element per family / 3 top-level; element family iff collection; "
+            "__spec_class_* always registered); private-name filters at both sources; singular fallback and collision loop over all "
+            "attributes.",
+            "decision-table extraction + who-may-write / registry-exhaustiveness AST rules"),
+    "C17": ("The generator is analysed, not its exec output: builder chain vs implementation signature for the 19 helpers and __init__ "
+            "(names, kinds, defaults, **kw for virtual keywords, _inplace/_if keyword-only False/True), nested-keyword source type per "
+            "helper family, exhaustive truth table of the with_spec_attrs_for filter, validate_attrs before implementation in the exec "
+            "template and exact membership test, per-kind tables of the call/definition string generators over all 5 parameter kinds, "
+            "advertised signature composition, parameter liveness.",
+            "cross-checking of sibling artefacts (builder chain, def signature, exec template) over the AST; finite truth tables"),
+    "C19": ("Schedules are not enumerated; decided is the lock discipline that makes them irrelevant: every lazy trigger reaches "
+            "bootstrap() only inside `with <per-class lock>` (the same lock as the __new__ wrapper) with a re-check of the bootstrapped "
+            "state dominating the call; placeholders are given the locked trigger; the wrapper tests its marker and installs/removes "
+            "__new__ only inside the lock, after triggering bootstrap and before delegating; no foreign spec-class lookups under the lock; "
+            "method descriptors dissolve onto the registering class with an idempotent value.",
+            "lockset / double-checked-locking structural analysis over the AST"),
 }
 
 NOT_YET = "check under construction in this round; see DESIGN.md"
